@@ -846,26 +846,28 @@ fn generate_hunks(
         // Create the after line by replacing the variant in the original line
         // Use the column position from the match to ensure we replace the right occurrence
         let match_col = m.column;
-        let line_after =
-            if match_col < line_string.len() && line_string[match_col..].starts_with(&content) {
+        let line_after = if line_string
+            .get(match_col..)
+            .is_some_and(|rest| rest.starts_with(&content))
+        {
+            let mut after_line = String::new();
+            after_line.push_str(&line_string[..match_col]);
+            after_line.push_str(&replace);
+            after_line.push_str(&line_string[match_col + content.len()..]);
+            after_line
+        } else {
+            // Fallback: try to find the match in the line
+            if let Some(match_pos) = line_string.find(&content) {
                 let mut after_line = String::new();
-                after_line.push_str(&line_string[..match_col]);
+                after_line.push_str(&line_string[..match_pos]);
                 after_line.push_str(&replace);
-                after_line.push_str(&line_string[match_col + content.len()..]);
+                after_line.push_str(&line_string[match_pos + content.len()..]);
                 after_line
             } else {
-                // Fallback: try to find the match in the line
-                if let Some(match_pos) = line_string.find(&content) {
-                    let mut after_line = String::new();
-                    after_line.push_str(&line_string[..match_pos]);
-                    after_line.push_str(&replace);
-                    after_line.push_str(&line_string[match_pos + content.len()..]);
-                    after_line
-                } else {
-                    // Could not find the match in the line - this shouldn't happen
-                    line_before.clone()
-                }
-            };
+                // Could not find the match in the line - this shouldn't happen
+                line_before.clone()
+            }
+        };
 
         // Calculate character offset from byte offset
         let char_offset = byte_offset_to_char_offset(&line_before, m.column);
